@@ -1,45 +1,41 @@
 import Deb822Verif.Lemmas.RelAccessField
-/-! The lossy relation reader on a well-formed, substvar-free field outside the regions of the open
-    findings: it yields exactly `FieldA.view` (C10, stage 4). -/
+/-! The lossy relation reader on a well-formed, substvar-free field: it yields exactly
+    `FieldA.view` (C10, stage 4). -/
+set_option linter.unusedSimpArgs false
+set_option linter.unusedVariables false
 namespace Deb822Verif.Rel
 open Deb822Verif Node RelSpec Lossy
 
 /-! ### token level: one relation -/
 
-/-- a gap without newline is at most one WHITESPACE token -/
-theorem gapToks_noNl (g : Gap) (h : gapHasNl g = false) : ∀ t ∈ gapToks g, t.1 = .WHITESPACE := by
-  intro t ht
-  simp only [gapToks, List.mem_map] at ht
-  obtain ⟨p, hp, rfl⟩ := ht
-  cases p with
-  | ws s => rfl
-  | nl =>
-    have : gapHasNl g = true := by
-      simp only [gapHasNl, List.any_eq_true]; exact ⟨_, hp, rfl⟩
-    rw [h] at this; cases this
-
-/-- the next token (if any) is not WHITESPACE -/
-def NoSp (ts : List Tok) : Prop := ∀ t, ts.head? = some t → t.1 ≠ .WHITESPACE
-
-theorem noSp_nil : NoSp [] := by intro t h; simp at h
-theorem noSp_cons (t : Tok) (r : List Tok) (h : t.1 ≠ .WHITESPACE) : NoSp (t :: r) := by
-  intro x hx; simp at hx; subst hx; exact h
-
-theorem eatWs_sp (ws x : List Tok) (hws : ∀ t ∈ ws, t.1 = .WHITESPACE) (hx : NoSp x) :
+theorem eatWs_ws (ws x : List Tok) (hws : ∀ t ∈ ws, isWsKind t.1 = true) (hx : NoWs x) :
     eatWs (ws ++ x) = x := by
   induction ws with
   | nil =>
     cases x with
     | nil => rfl
-    | cons t r => simp [eatWs, hx t (by simp)]
+    | cons t r =>
+      have := hx t (by simp)
+      simp only [isWsKind, Bool.or_eq_false_iff, beq_eq_false_iff_ne] at this
+      simp [eatWs, this.1, this.2]
   | cons w ws ih =>
-    simp [eatWs, hws w (by simp), ih (fun t ht => hws t (by simp [ht]))]
+    have hw := hws w (by simp)
+    simp only [isWsKind, Bool.or_eq_true, beq_iff_eq] at hw
+    simp [eatWs, hw, ih (fun t ht => hws t (by simp [ht]))]
 
-theorem eatWs_gap (g : Gap) (x : List Tok) (hg : gapHasNl g = false) (hx : NoSp x) :
-    eatWs (gapToks g ++ x) = x := eatWs_sp _ _ (gapToks_noNl g hg) hx
+theorem eatWs_gap (g : Gap) (x : List Tok) (hx : NoWs x) : eatWs (gapToks g ++ x) = x :=
+  eatWs_ws _ _ (gapToks_ws g) hx
 
-theorem eatWs_noSp (x : List Tok) (hx : NoSp x) : eatWs x = x := by
-  simpa using eatWs_sp [] x (by simp) hx
+theorem eatWs_noWs (x : List Tok) (hx : NoWs x) : eatWs x = x := by
+  simpa using eatWs_ws [] x (by simp) hx
+
+theorem eatWs_idem (x : List Tok) : eatWs (eatWs x) = eatWs x := by
+  induction x with
+  | nil => rfl
+  | cons t r ih =>
+    by_cases h : t.1 = .WHITESPACE ∨ t.1 = .NEWLINE
+    · simp [eatWs, h, ih]
+    · simp [eatWs, h]
 
 theorem constraintSpan_op (op : VC) (more : List Tok)
     (hm : ∀ t, more.head? = some t → t.1 ≠ .L_ANGLE ∧ t.1 ≠ .R_ANGLE ∧ t.1 ≠ .EQUAL) :
@@ -52,34 +48,34 @@ theorem constraintSpan_op (op : VC) (more : List Tok)
       simp [constraintSpan, a, b, c]
   cases op <;> simp [opToks, constraintSpan, hstop, VC.display]
 
-theorem versionSpan_ver (v : VersionA) (more : List Tok) :
-    versionSpan (v.toks ++ (.R_PARENS, [')']) :: more) = .ok (v.str, (.R_PARENS, [')']) :: more) := by
-  cases he : v.epoch <;> simp [VersionA.toks, VersionA.str, he, versionSpan]
-
-theorem verToks_noSp (v : VersionA) (more : List Tok) : NoSp (v.toks ++ more) := by
-  cases he : v.epoch <;> simp only [VersionA.toks, he, List.nil_append, List.cons_append] <;>
-    exact noSp_cons _ _ (by simp)
-
-theorem opToks_noSp (op : VC) (more : List Tok) : NoSp (opToks op ++ more) := by
-  cases op <;> exact noSp_cons _ _ (by simp)
+/-- the version tokens followed by a gap and `)` -/
+theorem versionSpan_ver (v : VersionA) (g : Gap) (more : List Tok) :
+    versionSpan (v.toks ++ (gapToks g ++ (.R_PARENS, [')']) :: more))
+      = .ok (v.str, gapToks g ++ (.R_PARENS, [')']) :: more) := by
+  have hstop : versionSpan (gapToks g ++ (Kind.R_PARENS, [')']) :: more)
+      = .ok ([], gapToks g ++ (Kind.R_PARENS, [')']) :: more) := by
+    cases g with
+    | nil => simp [gapToks, versionSpan]
+    | cons p g => cases p <;> simp [gapToks, GapPiece.tok, versionSpan]
+  cases he : v.epoch <;> simp [VersionA.toks, VersionA.str, he, versionSpan, hstop]
 
 /-- the version block (its leading gap already eaten) -/
-theorem readVersion_ver (v : VerPart) (more : List Tok) (hv : v.ok = true) (h4 : v.g4 = [])
-    (h2 : gapHasNl v.g2 = false) (h3 : gapHasNl v.g3 = false) :
+theorem readVersion_ver (v : VerPart) (more : List Tok) (hv : v.ok = true) :
     readVersion (vbody v ++ more) = .ok (some (v.op, v.ver.value), more) := by
   have hvok : v.ver.ok = true := ((VerPart.ok_iff v).1 hv).2.2.2.2
   have e1 : vbody v ++ more = (.L_PARENS, ['(']) ::
-      (gapToks v.g2 ++ (opToks v.op ++ (gapToks v.g3 ++ (v.ver.toks ++ (.R_PARENS, [')']) :: more)))) := by
-    simp [vbody, VerPart.inner, h4, gapToks]
-  have s2 := eatWs_gap v.g2 (opToks v.op ++ (gapToks v.g3 ++ (v.ver.toks ++ (Kind.R_PARENS, [')']) :: more)))
-    h2 (opToks_noSp _ _)
-  have c := constraintSpan_op v.op (gapToks v.g3 ++ (v.ver.toks ++ (Kind.R_PARENS, [')']) :: more))
+      (gapToks v.g2 ++ (opToks v.op ++ (gapToks v.g3 ++ (v.ver.toks ++ (gapToks v.g4 ++ (.R_PARENS, [')']) :: more))))) := by
+    simp [vbody, VerPart.inner]
+  have s2 := eatWs_gap v.g2 (opToks v.op ++ (gapToks v.g3 ++ (v.ver.toks ++ (gapToks v.g4 ++ (Kind.R_PARENS, [')']) :: more))))
+    (opToks_noWs _ _)
+  have c := constraintSpan_op v.op (gapToks v.g3 ++ (v.ver.toks ++ (gapToks v.g4 ++ (Kind.R_PARENS, [')']) :: more)))
     (gap_head_not (P := fun k => k ≠ .L_ANGLE ∧ k ≠ .R_ANGLE ∧ k ≠ .EQUAL) _ _ (by decide) (by decide) (by
       intro t ht
       cases he : v.ver.epoch <;> (simp [VersionA.toks, he] at ht; subst ht; simp)))
-  have s3 := eatWs_gap v.g3 (v.ver.toks ++ (Kind.R_PARENS, [')']) :: more) h3 (verToks_noSp _ _)
+  have s3 := eatWs_gap v.g3 (v.ver.toks ++ (gapToks v.g4 ++ (Kind.R_PARENS, [')']) :: more)) (verToks_noWs _ _)
+  have s4 := eatWs_gap v.g4 ((Kind.R_PARENS, [')']) :: more) (noWs_cons _ _ rfl)
   rw [e1]
-  simp [readVersion, s2, c, VC.parse_display, s3, versionSpan_ver, Version.parse_written _ hvok, eatWs]
+  simp [readVersion, s2, c, VC.parse_display, s3, versionSpan_ver, Version.parse_written _ hvok, s4]
 
 theorem readVersion_none (x : List Tok) (h : ∀ t, x.head? = some t → t.1 ≠ .L_PARENS) :
     readVersion x = .ok (none, x) := by
@@ -87,37 +83,44 @@ theorem readVersion_none (x : List Tok) (h : ∀ t, x.head? = some t → t.1 ≠
   | nil => rfl
   | cons t r => simp [readVersion, h t (by simp)]
 
-/-- the architecture loop: no negation, gaps without newline -/
-theorem lossy_archLoop_items (is : List Item) (post : Gap) (more : List Tok)
-    (hneg : is.any Item.neg = false) (hg : ∀ i ∈ is, gapHasNl i.gap = false) (hp : gapHasNl post = false) :
+theorem lossy_archLoop_ws (ws x : List Tok) (hws : ∀ t ∈ ws, isWsKind t.1 = true) :
+    Lossy.archLoop (ws ++ x) = Lossy.archLoop x := by
+  induction ws with
+  | nil => rfl
+  | cons w ws ih =>
+    have hw := hws w (by simp)
+    simp only [isWsKind, Bool.or_eq_true, beq_iff_eq] at hw
+    have h1 : w.1 ≠ .IDENT := by rcases hw with h | h <;> simp [h]
+    have h2 : w.1 ≠ .NOT := by rcases hw with h | h <;> simp [h]
+    simp only [List.cons_append]
+    rw [Lossy.archLoop_cons]
+    simp [h1, h2, hw, ih (fun t ht => hws t (by simp [ht]))]
+
+/-- the architecture loop -/
+theorem lossy_archLoop_items (is : List Item) (post : Gap) (more : List Tok) :
     Lossy.archLoop (itemsToks is ++ (gapToks post ++ (.R_BRACKET, [']']) :: more))
-      = .ok (is.map Item.name, more) := by
-  have skip : ∀ (ws x : List Tok), (∀ t ∈ ws, t.1 = .WHITESPACE) → Lossy.archLoop (ws ++ x) = Lossy.archLoop x := by
-    intro ws x hws
-    induction ws with
-    | nil => rfl
-    | cons w ws ih =>
-      have hw := hws w (by simp)
-      simp [Lossy.archLoop, hw, ih (fun t ht => hws t (by simp [ht]))]
+      = .ok (is.map Item.text, more) := by
   induction is with
   | nil =>
     simp only [itemsToks, List.map_nil, List.flatten_nil, List.nil_append]
-    rw [skip _ _ (gapToks_noNl post hp)]
-    simp [Lossy.archLoop]
+    rw [lossy_archLoop_ws _ _ (gapToks_ws post), Lossy.archLoop_cons]
+    simp
   | cons i is ih =>
-    simp only [List.any_cons, Bool.or_eq_false_iff] at hneg
-    have ih' := ih hneg.2 (fun j hj => hg j (by simp [hj]))
-    simp only [itemsToks, List.map_cons, List.flatten_cons, List.append_assoc] at ih' ⊢
-    simp only [Item.toks, hneg.1, Bool.false_eq_true, ↓reduceIte, List.append_nil, List.append_assoc,
-      List.cons_append, List.nil_append]
-    rw [skip _ _ (gapToks_noNl i.gap (hg i (by simp)))]
-    simp [Lossy.archLoop, ih']
+    simp only [itemsToks, List.map_cons, List.flatten_cons, List.append_assoc] at ih ⊢
+    cases hn : i.neg with
+    | false =>
+      simp only [Item.toks, hn, Bool.false_eq_true, ↓reduceIte, List.append_nil, List.append_assoc,
+        List.cons_append, List.nil_append]
+      rw [lossy_archLoop_ws _ _ (gapToks_ws i.gap), Lossy.archLoop_cons]
+      simp [ih, Item.text, hn]
+    | true =>
+      simp only [Item.toks, hn, ↓reduceIte, List.append_assoc, List.cons_append, List.nil_append]
+      rw [lossy_archLoop_ws _ _ (gapToks_ws i.gap), Lossy.archLoop_cons]
+      simp [ih, Item.text, hn]
 
-theorem readArchs_archs (a : Bracket) (more : List Tok)
-    (hneg : a.items.any Item.neg = false) (hg : ∀ i ∈ a.items, gapHasNl i.gap = false)
-    (hp : gapHasNl a.post = false) :
-    readArchs (archBody a ++ more) = .ok (some (a.items.map Item.name), more) := by
-  have := lossy_archLoop_items a.items a.post more hneg hg hp
+theorem readArchs_archs (a : Bracket) (more : List Tok) :
+    readArchs (archBody a ++ more) = .ok (some (a.items.map Item.text), more) := by
+  have := lossy_archLoop_items a.items a.post more
   simp [readArchs, archBody, Bracket.body, this]
 
 theorem readArchs_none (x : List Tok) (h : ∀ t, x.head? = some t → t.1 ≠ .L_BRACKET) :
@@ -126,130 +129,81 @@ theorem readArchs_none (x : List Tok) (h : ∀ t, x.head? = some t → t.1 ≠ .
   | nil => rfl
   | cons t r => simp [readArchs, h t (by simp)]
 
-/-- a single-term group without inner whitespace: `<name>` or `<!name>` -/
-theorem groupLoop_single (i : Item) (more : List Tok) (hgap : i.gap = []) :
-    groupLoop (i.toks ++ (.R_ANGLE, ['>']) :: more) = .ok ([[i.profile]], eatWs more) := by
-  cases hn : i.neg with
-  | false =>
-    have ht : termLoop ((Kind.IDENT, i.name) :: (Kind.R_ANGLE, ['>']) :: more)
-        = .ok ([.Enabled i.name], (Kind.R_ANGLE, ['>']) :: more) := by
-      rw [termLoop]; simp [readTerm]
-    simp only [Item.toks, hgap, hn, gapToks, List.map_nil, List.nil_append, Bool.false_eq_true, ↓reduceIte,
-      List.cons_append]
-    rw [groupLoop]
-    split
-    · rename_i e h; rw [ht] at h; simp at h
-    · rename_i p r h
-      rw [ht] at h; simp at h; obtain ⟨rfl, rfl⟩ := h
-      simp [Item.profile, hn]
-  | true =>
-    have ht : termLoop ((Kind.NOT, ['!']) :: (Kind.IDENT, i.name) :: (Kind.R_ANGLE, ['>']) :: more)
-        = .ok ([.Disabled i.name], (Kind.R_ANGLE, ['>']) :: more) := by
-      rw [termLoop]; simp [readTerm]
-    simp only [Item.toks, hgap, hn, gapToks, List.map_nil, List.nil_append, ↓reduceIte, List.cons_append]
-    rw [groupLoop]
-    split
-    · rename_i e h; rw [ht] at h; simp at h
-    · rename_i p r h
-      rw [ht] at h; simp at h; obtain ⟨rfl, rfl⟩ := h
-      simp [Item.profile, hn]
-
-
-theorem eatWs_idem (x : List Tok) : eatWs (eatWs x) = eatWs x := by
-  induction x with
+theorem profTerms_ws (ws x : List Tok) (hws : ∀ t ∈ ws, isWsKind t.1 = true) :
+    profTerms (ws ++ x) = profTerms x := by
+  induction ws with
   | nil => rfl
-  | cons t r ih =>
-    by_cases h : t.1 = .WHITESPACE
-    · simp [eatWs, h, ih]
-    · simp [eatWs, h]
+  | cons w ws ih =>
+    have hw := hws w (by simp)
+    simp only [isWsKind, Bool.or_eq_true, beq_iff_eq] at hw
+    have h1 : w.1 ≠ .IDENT := by rcases hw with h | h <;> simp [h]
+    have h2 : w.1 ≠ .NOT := by rcases hw with h | h <;> simp [h]
+    simp only [List.cons_append]
+    rw [profTerms_cons]
+    simp [h1, h2, hw, ih (fun t ht => hws t (by simp [ht]))]
 
-/-- a profile group the lossy reader handles: one term, no whitespace inside the brackets,
-    no newline before it -/
-def groupLossyOk (p : Bracket) : Prop :=
-  (∃ i, p.items = [i] ∧ i.gap = []) ∧ p.post = [] ∧ gapHasNl p.pre = false
+/-- one restriction list -/
+theorem profTerms_items (is : List Item) (post : Gap) (more : List Tok) :
+    profTerms (itemsToks is ++ (gapToks post ++ (.R_ANGLE, ['>']) :: more))
+      = .ok (is.map Item.profile, more) := by
+  induction is with
+  | nil =>
+    simp only [itemsToks, List.map_nil, List.flatten_nil, List.nil_append]
+    rw [profTerms_ws _ _ (gapToks_ws post), profTerms_cons]
+    simp
+  | cons i is ih =>
+    simp only [itemsToks, List.map_cons, List.flatten_cons, List.append_assoc] at ih ⊢
+    cases hn : i.neg with
+    | false =>
+      simp only [Item.toks, hn, Bool.false_eq_true, ↓reduceIte, List.append_nil, List.append_assoc,
+        List.cons_append, List.nil_append]
+      rw [profTerms_ws _ _ (gapToks_ws i.gap), profTerms_cons]
+      simp [ih, Item.profile, hn]
+    | true =>
+      simp only [Item.toks, hn, ↓reduceIte, List.append_assoc, List.cons_append, List.nil_append]
+      rw [profTerms_ws _ _ (gapToks_ws i.gap), profTerms_cons]
+      simp [ih, Item.profile, hn]
 
-theorem profBody_single (p : Bracket) (i : Item) (hi : p.items = [i]) (hpost : p.post = []) :
-    profBody p = (.L_ANGLE, ['<']) :: (i.toks ++ [(.R_ANGLE, ['>'])]) := by
-  simp [profBody, Bracket.body, hi, hpost, itemsToks, gapToks]
+theorem profBody_noWs (p : Bracket) (x : List Tok) : NoWs (profBody p ++ x) := by
+  rw [profBody, Bracket.body, List.cons_append]; exact noWs_cons _ _ rfl
 
-theorem eatWs_profsToks_head (ps : List Bracket) (h : ∀ p ∈ ps, groupLossyOk p) :
+theorem eatWs_profsToks_head (ps : List Bracket) :
     ∀ t, (eatWs (profsToks ps)).head? = some t → t.1 = .L_ANGLE := by
   cases ps with
   | nil => intro t ht; simp [profsToks, eatWs] at ht
   | cons p ps =>
-    obtain ⟨_, _, hpre⟩ := h p (by simp)
-    rw [profsToks_cons, eatWs_gap _ _ hpre (by
-      rw [profBody, Bracket.body, List.cons_append]; exact noSp_cons _ _ (by simp))]
+    rw [profsToks_cons, eatWs_gap _ _ (profBody_noWs _ _)]
     intro t ht
     simp [profBody, Bracket.body] at ht; subst ht; rfl
 
-theorem lossy_profilesLoop_groups (ps : List Bracket) (h : ∀ p ∈ ps, groupLossyOk p) :
+theorem lossy_profilesLoop_groups (ps : List Bracket) :
     Lossy.profilesLoop (eatWs (profsToks ps)) = .ok (ps.map fun g => g.items.map Item.profile, []) := by
   induction ps with
   | nil => simp [profsToks, eatWs, Lossy.profilesLoop]
   | cons p ps ih =>
-    obtain ⟨⟨i, hi, hgap⟩, hpost, hpre⟩ := h p (by simp)
-    have ih' := ih (fun q hq => h q (by simp [hq]))
-    rw [profsToks_cons, eatWs_gap _ _ hpre (by
-      rw [profBody, Bracket.body, List.cons_append]; exact noSp_cons _ _ (by simp))]
-    rw [profBody_single p i hi hpost]
-    simp only [List.cons_append, List.append_assoc, List.nil_append]
-    have hg := groupLoop_single i (profsToks ps) hgap
-    rw [Lossy.profilesLoop]
+    rw [profsToks_cons, eatWs_gap _ _ (profBody_noWs _ _)]
+    have hb : profBody p ++ profsToks ps
+        = (.L_ANGLE, ['<']) :: (itemsToks p.items ++ (gapToks p.post ++ (.R_ANGLE, ['>']) :: profsToks ps)) := by
+      simp [profBody, Bracket.body]
+    have hg := profTerms_items p.items p.post (profsToks ps)
+    rw [hb, Lossy.profilesLoop]
     simp only [↓reduceIte]
     split
     · rename_i e hh; rw [hg] at hh; simp at hh
     · rename_i gs r2 hh
       rw [hg] at hh; simp at hh; obtain ⟨rfl, rfl⟩ := hh
-      simp [ih', hi]
+      simp [ih]
 
-theorem RelA.lossyOk_iff (r : RelA) : r.lossyOk = true ↔
-    r.hasNegatedArch = false ∧ r.hasCloseGap = false ∧ r.hasMultiTermGroup = false
-      ∧ r.hasProfileEdgeGap = false ∧ r.hasInnerNewline = false := by
-  simp [RelA.lossyOk, and_assoc]
-
-theorem innerNl_mem (r : RelA) (h : r.hasInnerNewline = false) : ∀ g ∈ r.innerGaps, gapHasNl g = false := by
-  simpa [RelA.hasInnerNewline, List.any_eq_false] using h
-
-/-- C10 stage 4, token level: the lossy relation reader on the tokens of a well-formed relation
-    outside the trigger regions -/
-theorem readRelationToks_rel (r : RelA) (hr : r.ok = true) (hl : r.lossyOk = true) :
+/-- C10 stage 4, token level: the lossy relation reader on the tokens of a well-formed relation -/
+theorem readRelationToks_rel (r : RelA) (hr : r.ok = true) :
     readRelationToks r.toks = .ok r.view := by
-  obtain ⟨hneg, hclose, hmulti, hedge, hnl⟩ := (RelA.lossyOk_iff r).1 hl
   obtain ⟨h1, h2, h3, h4, h5⟩ := (RelA.ok_iff r).1 hr
-  have hin := innerNl_mem r hnl
   rw [RelA.toks_eq]
   cases r with
   | mk name aq v a ps =>
-  simp only at h1 h2 h3 h4 h5 hin
-  -- profile groups
-  have hgroups : ∀ p ∈ ps, groupLossyOk p := by
-    intro p hp
-    have hpok := (Bracket.ok_iff p).1 (h5 p hp)
-    have hm : ¬ 1 < p.items.length := by
-      have := hmulti
-      simp only [RelA.hasMultiTermGroup, List.any_eq_false] at this
-      simpa using this p hp
-    have he : p.hasEdgeGap = false := by
-      have := hedge
-      simp only [RelA.hasProfileEdgeGap, List.any_eq_false] at this
-      simpa using this p hp
-    have hpre : gapHasNl p.pre = false := hin p.pre (by
-      simp only [RelA.innerGaps, List.mem_append, List.mem_flatMap]
-      exact Or.inr ⟨p, hp, by simp⟩)
-    cases hitems : p.items with
-    | nil => exact absurd hitems hpok.2.2.1
-    | cons i is =>
-      have : is = [] := by
-        cases is with
-        | nil => rfl
-        | cons j js => simp [hitems] at hm
-      subst this
-      simp only [Bracket.hasEdgeGap, hitems, Bool.or_eq_false_iff, Bool.not_eq_false',
-        List.isEmpty_iff] at he
-      exact ⟨⟨i, hitems, he.2⟩, he.1, hpre⟩
-  have P3 := lossy_profilesLoop_groups ps hgroups
-  have H3 := eatWs_profsToks_head ps hgroups
+  simp only at h1 h2 h3 h4 h5
+  have P3 := lossy_profilesLoop_groups ps
+  have H3 := eatWs_profsToks_head ps
   -- architectures
   have A2 : ∃ Y, readArchs (eatWs (archToks a ++ profsToks ps)) = .ok (a.map fun b => b.items.map Item.text, Y)
       ∧ eatWs Y = eatWs (profsToks ps) := by
@@ -259,24 +213,16 @@ theorem readRelationToks_rel (r : RelA) (hr : r.ok = true) (hl : r.lossyOk = tru
       simp only [archToks, List.nil_append, Option.map_none]
       exact readArchs_none _ (fun t ht e => by have := H3 t ht; rw [this] at e; cases e)
     | some b =>
-      have hbok := (Bracket.ok_iff b).1 (h4 b rfl)
-      have hbneg : b.items.any Item.neg = false := by simpa [RelA.hasNegatedArch] using hneg
-      have hpre : gapHasNl b.pre = false := hin b.pre (by simp [RelA.innerGaps])
-      have hpost : gapHasNl b.post = false := hin b.post (by simp [RelA.innerGaps])
-      have hgaps : ∀ i ∈ b.items, gapHasNl i.gap = false := fun i hi => hin i.gap (by
-        simp only [RelA.innerGaps, List.mem_append, List.mem_cons, List.mem_map]
-        exact Or.inl (Or.inr (Or.inr (Or.inr ⟨i, hi, rfl⟩))))
       refine ⟨profsToks ps, ?_, rfl⟩
       simp only [archToks, List.append_assoc, Option.map_some]
-      rw [eatWs_gap _ _ hpre (by rw [archBody, Bracket.body, List.cons_append]; exact noSp_cons _ _ (by simp)),
-        readArchs_archs b _ hbneg hgaps hpost, items_text_of_noNeg _ hbneg]
+      rw [eatWs_gap _ _ (by rw [archBody, Bracket.body, List.cons_append]; exact noWs_cons _ _ rfl),
+        readArchs_archs b _]
   have H2 : ∀ t, (eatWs (archToks a ++ profsToks ps)).head? = some t → t.1 = .L_BRACKET ∨ t.1 = .L_ANGLE := by
     cases a with
     | none => intro t ht; exact Or.inr (H3 t (by simpa [archToks] using ht))
     | some b =>
-      have hpre : gapHasNl b.pre = false := hin b.pre (by simp [RelA.innerGaps])
       simp only [archToks, List.append_assoc]
-      rw [eatWs_gap _ _ hpre (by rw [archBody, Bracket.body, List.cons_append]; exact noSp_cons _ _ (by simp))]
+      rw [eatWs_gap _ _ (by rw [archBody, Bracket.body, List.cons_append]; exact noWs_cons _ _ rfl)]
       intro t ht; simp [archBody, Bracket.body] at ht; subst ht; exact Or.inl rfl
   -- version
   have V1 : ∃ Y, readVersion (eatWs (verToks v ++ (archToks a ++ profsToks ps)))
@@ -288,24 +234,18 @@ theorem readRelationToks_rel (r : RelA) (hr : r.ok = true) (hl : r.lossyOk = tru
       simp only [verToks, List.nil_append, Option.map_none]
       exact readVersion_none _ (fun t ht e => by rcases H2 t ht with h | h <;> (rw [h] at e; cases e))
     | some w =>
-      have hwok := h3 w rfl
-      have hg4 : w.g4 = [] := by simpa [RelA.hasCloseGap] using hclose
-      have hpre : gapHasNl w.pre = false := hin w.pre (by simp [RelA.innerGaps])
-      have hg2 : gapHasNl w.g2 = false := hin w.g2 (by simp [RelA.innerGaps])
-      have hg3 : gapHasNl w.g3 = false := hin w.g3 (by simp [RelA.innerGaps])
       refine ⟨archToks a ++ profsToks ps, ?_, rfl⟩
       simp only [verToks, VerPart.toks_eq, List.append_assoc, Option.map_some]
-      rw [eatWs_gap _ _ hpre (by rw [vbody, List.cons_append]; exact noSp_cons _ _ (by simp)),
-        readVersion_ver w _ hwok hg4 hg2 hg3]
+      rw [eatWs_gap _ _ (by rw [vbody, List.cons_append]; exact noWs_cons _ _ rfl),
+        readVersion_ver w _ (h3 w rfl)]
   have H1 : ∀ t, (eatWs (verToks v ++ (archToks a ++ profsToks ps))).head? = some t → t.1 ≠ .COLON := by
     cases v with
     | none =>
       intro t ht e
       rcases H2 t (by simpa [verToks] using ht) with h | h <;> (rw [h] at e; cases e)
     | some w =>
-      have hpre : gapHasNl w.pre = false := hin w.pre (by simp [RelA.innerGaps])
       simp only [verToks, VerPart.toks_eq, List.append_assoc]
-      rw [eatWs_gap _ _ hpre (by rw [vbody, List.cons_append]; exact noSp_cons _ _ (by simp))]
+      rw [eatWs_gap _ _ (by rw [vbody, List.cons_append]; exact noWs_cons _ _ rfl)]
       intro t ht; simp [vbody] at ht; subst ht; simp
   obtain ⟨Y2, hV, hY2⟩ := V1
   obtain ⟨Y3, hA, hY3⟩ := A2
@@ -326,7 +266,6 @@ theorem readRelationToks_rel (r : RelA) (hr : r.ok = true) (hl : r.lossyOk = tru
         simp [readArchqual, this]
   obtain ⟨Y1, hQ, hY1⟩ := A0
   simp only [readRelationToks, readName, ↓reduceIte, hQ, hY1, hV, hY2, hA, hY3, P3, eatWs, RelA.view]
-
 
 /-! ### character level: `split(',')`, `split('|')`, `trim()` -/
 
@@ -409,7 +348,7 @@ theorem okStr_items (is : List Item) (h : ∀ i ∈ is, i.ok = true) : okStr (is
 
 theorem okStr_bracket (o c : Char) (b : Bracket) (hb : b.ok = true)
     (ho : (o != ',' && o != '|') = true) (hc : (c != ',' && c != '|') = true) : okStr (b.str o c) = true := by
-  obtain ⟨h1, h2, _, h4, _⟩ := (Bracket.ok_iff b).1 hb
+  obtain ⟨h1, h2, h4, _⟩ := (Bracket.ok_iff b).1 hb
   simp [Bracket.str, okStr_append, okStr_cons, okStr_gap h1, okStr_gap h2, okStr_items _ h4, ho, hc, okStr_nil]
 
 theorem okStr_rel (r : RelA) (hr : r.ok = true) : okStr r.str = true := by
@@ -629,7 +568,7 @@ theorem splitOn_alts (g1 : Gap) (r : RelA) (as : List AltA) (hg : gapOk g1 = tru
     rfl
 
 theorem readAlt_piece (g1 g2 : Gap) (r : RelA) (h1 : gapOk g1 = true) (h2 : gapOk g2 = true)
-    (hr : r.ok = true) (hl : r.lossyOk = true) :
+    (hr : r.ok = true) :
     readAlt (gapStr g1 ++ (r.str ++ gapStr g2)) = .ok r.view := by
   have ht := trim_solid g1 g2 r.str h1 h2 (solid_rel r hr)
   have hne : (r.str).isEmpty = false := by
@@ -638,19 +577,19 @@ theorem readAlt_piece (g1 g2 : Gap) (r : RelA) (h1 : gapOk g1 = true) (h2 : gapO
   have hlex : lex r.str = r.toks := by
     have := lex_rel r [] hr (headFails_nil _)
     simpa [lex_nil] using this
-  simp [readAlt, ht, hne, Lossy.readRelation, hlex, readRelationToks_rel r hr hl]
+  simp [readAlt, ht, hne, Lossy.readRelation, hlex, readRelationToks_rel r hr]
 
 theorem mapM_altPieces (g1 : Gap) (r : RelA) (as : List AltA) (hg : gapOk g1 = true)
-    (hr : r.ok = true ∧ r.lossyOk = true) (has : ∀ a ∈ as, a.ok = true ∧ a.rel.lossyOk = true) :
+    (hr : r.ok = true) (has : ∀ a ∈ as, a.ok = true) :
     (altPieces g1 r as).mapM readAlt = .ok (r.view :: as.map fun a => a.rel.view) := by
   induction as generalizing g1 r with
   | nil =>
-    have := readAlt_piece g1 [] r hg rfl hr.1 hr.2
+    have := readAlt_piece g1 [] r hg rfl hr
     simp [altPieces, List.mapM_cons, this, bind, Except.bind, pure, Except.pure]
   | cons a as ih =>
-    obtain ⟨h1, h2, h3⟩ := (AltA.ok_iff a).1 (has a (by simp)).1
-    have hp := readAlt_piece g1 a.gb r hg h1 hr.1 hr.2
-    have := ih a.ga a.rel h2 ⟨h3, (has a (by simp)).2⟩ (fun b hb => has b (by simp [hb]))
+    obtain ⟨h1, h2, h3⟩ := (AltA.ok_iff a).1 (has a (by simp))
+    have hp := readAlt_piece g1 a.gb r hg h1 hr
+    have := ih a.ga a.rel h2 h3 (fun b hb => has b (by simp [hb]))
     simp [altPieces, List.mapM_cons, hp, this, bind, Except.bind, pure, Except.pure]
 
 theorem endsSolid_alts (r : RelA) (as : List AltA) (hr : r.ok = true) (has : ∀ a ∈ as, a.ok = true) :
@@ -665,9 +604,8 @@ theorem endsSolid_alts (r : RelA) (as : List AltA) (hr : r.ok = true) (has : ∀
         = (r.str ++ (gapStr a.gb ++ '|' :: gapStr a.ga)) ++ (a.rel.str ++ altsStr as) := by simp
     rw [e]; exact endsSolid_append _ _ this
 
-/-- an entry the lossy reader must handle -/
-def segLossyOk (s : Seg) : Prop :=
-  s.entry.isSubstvar = false ∧ ∀ r ∈ s.entry.rels, r.lossyOk = true
+/-- an entry the lossy reader must handle: not a substitution variable -/
+def segLossyOk (s : Seg) : Prop := s.entry.isSubstvar = false
 
 theorem readEntry_seg (s : Seg) (hs : s.ok = true) (hl : segLossyOk s) :
     Lossy.readEntry s.str = .ok s.entry.view := by
@@ -679,13 +617,10 @@ theorem readEntry_seg (s : Seg) (hs : s.ok = true) (hl : segLossyOk s) :
     have := trim_gap s.pre h1
     simp only [gapStr] at this
     simp [this]
-  | substvar p ps => have := hl.1; simp [he, EntryA.isSubstvar] at this
+  | substvar p ps => have := hl; simp [segLossyOk, he, EntryA.isSubstvar] at this
   | alts r as =>
     rw [he] at h3
     simp only [EntryA.ok, Bool.and_eq_true, List.all_eq_true] at h3
-    have hrl : r.lossyOk = true := hl.2 r (by simp [he, EntryA.rels])
-    have hasl : ∀ a ∈ as, a.ok = true ∧ a.rel.lossyOk = true := fun a ha => ⟨h3.2 a ha, hl.2 a.rel (by
-      simp only [he, EntryA.rels, List.mem_cons, List.mem_map]; exact Or.inr ⟨a, ha, rfl⟩)⟩
     have estr : (EntryA.alts r as).str = r.str ++ altsStr as := by simp [EntryA.str, altsStr]
     have hsolid : Solid (r.str ++ altsStr as) := by
       refine ⟨?_, endsSolid_alts r as h3.1 h3.2⟩
@@ -697,7 +632,7 @@ theorem readEntry_seg (s : Seg) (hs : s.ok = true) (hl : segLossyOk s) :
       rw [e]; rfl
     have hsplit := splitOn_alts [] r as rfl h3.1 h3.2
     simp only [gapStr, List.map_nil, List.flatten_nil, List.nil_append] at hsplit
-    have hm := mapM_altPieces [] r as rfl ⟨h3.1, hrl⟩ hasl
+    have hm := mapM_altPieces [] r as rfl h3.1 h3.2
     simp only [List.append_assoc] at ht
     simp only [Lossy.readEntry, Seg.str, he, estr, List.append_assoc, ht, hne, Bool.false_eq_true, ↓reduceIte,
       hsplit, hm, EntryA.view]
@@ -773,21 +708,16 @@ theorem view_nil_of_str_nil (f : FieldA) (h : f.WF) (he : f.str = []) : f.view =
   rw [List.filterMap_eq_nil_iff]
   exact this
 
-/-- C10 stage 4: the lossy reader on a well-formed, substvar-free field outside the trigger regions -/
-theorem readRelations_field (f : FieldA) (h : f.WF) (hs : f.hasSubstvar = false) (hl : f.lossyOk = true) :
+/-- C10 stage 4: the lossy reader on a well-formed, substvar-free field -/
+theorem readRelations_field (f : FieldA) (h : f.WF) (hs : f.hasSubstvar = false) :
     Lossy.readRelations f.str = .ok f.view := by
   have hok : ∀ s ∈ f.segs, s.ok = true := by
     simpa [FieldA.WF, FieldA.ok, List.all_eq_true] using h
   have hseg : ∀ s ∈ f.segs, segLossyOk s := by
     intro s hm
-    constructor
-    · have := hs
-      simp only [FieldA.hasSubstvar, List.any_eq_false] at this
-      simpa using this s hm
-    · intro r hr
-      have := hl
-      simp only [FieldA.lossyOk, List.all_eq_true] at this
-      exact this r (by simp only [FieldA.rels, List.mem_flatMap]; exact ⟨s, hm, hr⟩)
+    have := hs
+    simp only [FieldA.hasSubstvar, List.any_eq_false] at this
+    simpa [segLossyOk] using this s hm
   by_cases hemp : f.str = []
   · simp [Lossy.readRelations, hemp, view_nil_of_str_nil f h hemp]
   · have hne : f.str.isEmpty = false := by cases hstr : f.str <;> simp [hstr] at hemp ⊢
